@@ -400,11 +400,12 @@ META = {
     'level_text': ('Theorems about the model for ALL pitch lists (any length, any integers, any order, duplicates): the '
                    'name produced by pitches_to_chord_symbol either is ChordSymbolError or is accepted by the interpreter '
                    'and denotes exactly the supplied pitch classes with the lowest pitch as bass. Proved by complete '
-                   'in-kernel enumeration (vm_compute, 8 shards) of all 4095 pitch-class sets x every bass x, for sets of '
+                   'in-kernel enumeration (vm_compute at Qed, 4 shards, per-root search memoised by a table whose use is proved sound) of all 4095 pitch-class sets x every bass x, for sets of '
                    '<= 4 classes, every first-occurrence order (the CPython set order the code depends on), lifted to '
                    'arbitrary lists by general lemmas (the name is a function of first-occurrence order and bass; of set '
                    'and bass when >= 5 classes). Interpreter consistency (root/bass in 0..11, quality implies its triad) '
-                   'is proved for every structured symbol. The model is tied to the code by differential runs: names, '
+                   'is proved for every structured symbol. The model follows the code with notes/C15-fix-1.diff and C15-fix-2.diff; the '
+                   'model of the code as found is proved to violate the round trip (C15_as_found_refuted). The model is tied to the code by differential runs: names, '
                    'their regex split, and the four interpretations are compared on every case.'),
     'level_note': ('Trusted: Coq kernel + vm_compute; hand-written model Model/ChordSym.v (tied by correspondence, incl. '
                    'the CPython small-int set iteration order); regex lexing of figures is done by the library itself and '
